@@ -103,7 +103,9 @@ impl TimeScale {
     /// If the `time` is nowhere on the timeline, returns one of the other [`TimeScalePosition`]
     /// values indicating which extreme was reached.
     pub fn get_position(&self, time: f32) -> TimeScalePosition {
-        let time = time - self.delay;
+        // A finite time minus a large negative delay can overflow to infinity, and `inf % duration` below
+        // would be NaN; any time that far out is as good as the largest finite one.
+        let time = (time - self.delay).min(f32::MAX);
         if time < 0.0 {
             return TimeScalePosition::NotStarted;
         }
